@@ -163,3 +163,10 @@ func TestSmoke(t *testing.T) {
 		}
 	}
 }
+
+func TestEnumSizes(t *testing.T) {
+	if os.Getenv("VERIF_SMOKE") == "" {
+		t.Skip()
+	}
+	fmt.Println("C11 enumeration:", C11EnumSize(), "C19 enumeration:", C19EnumSize())
+}
